@@ -209,7 +209,7 @@ func fieldType(ntype reflect.Type, name string) (reflect.Type, bool) {
 			// FieldByName follows the rule of Go for embedded structs: the field
 			// at the shallowest depth, none if it is ambiguous. The VM resolves
 			// fields the same way.
-			if f, ok := ntype.FieldByName(name); ok {
+			if f, ok := ntype.FieldByName(name); ok && f.PkgPath == "" {
 				return f.Type, true
 			}
 		case reflect.Map:
